@@ -221,11 +221,6 @@ pub enum ListEvent<'a> {
         list: usize,
         is_free: &'a dyn Fn() -> bool,
     },
-    /// A pointer to an element left the critical section that looked it up
-    /// and is about to be used without the lock (`size` = 0 if unknown).
-    PointerEscaped { addr: usize, size: usize },
-    /// The use of an escaped element pointer is over.
-    PointerDone { addr: usize },
     /// The buffer `addr .. addr + bytes` is about to be freed or moved.
     BufferReleased { addr: usize, bytes: usize },
 }
@@ -252,14 +247,6 @@ pub(crate) fn before_list_lock<T>(mutex: &std::sync::Mutex<T>) {
         list: mutex as *const _ as usize,
         is_free: &|| mutex.try_lock().is_ok(),
     });
-}
-
-pub(crate) fn list_ptr_escaped(addr: usize, size: usize) {
-    list_event(ListEvent::PointerEscaped { addr, size });
-}
-
-pub(crate) fn list_ptr_done(addr: usize) {
-    list_event(ListEvent::PointerDone { addr });
 }
 
 pub(crate) fn list_buffer_released(addr: usize, bytes: usize) {
